@@ -343,11 +343,17 @@ const (
 	SUntilCtx   = 4 // sends n values, then waits for ctx.Done, then closes
 	SInfinite   = 5 // sends until ctx done
 	SNeverClose = 6 // sends n values, never closes (until ctx done, then just returns without closing)
+	SHoldBefore = 7 // the handler waits on its gate (or ctx) BEFORE returning the channel; then behaves like SGoroutine
 )
 
 func (s *Svc) Sub(ctx context.Context, tok string, n int, mode int) (<-chan Item, error) {
 	r, g := s.enter(ctx, "Sub", tok)
 	defer s.exit(ctx, r)
+	if mode == SHoldBefore {
+		wait(ctx, g)
+		g = nil
+		mode = SGoroutine
+	}
 	if mode == SPrefilled {
 		ch := make(chan Item, n+1)
 		for i := 0; i < n; i++ {
@@ -410,6 +416,38 @@ func (s *Svc) Sub(ctx context.Context, tok string, n int, mode int) (<-chan Item
 		}
 	}()
 	return ch, nil
+}
+
+// SubNE returns only a channel (no error value).
+func (s *Svc) SubNE(ctx context.Context, tok string, n int, mode int) <-chan Item {
+	ch, _ := s.Sub(ctx, tok, n, mode)
+	return ch
+}
+
+// NoteFail is meant to be called as a notification; its handler fails.
+func (s *Svc) NoteFail(ctx context.Context, tok string) error {
+	r, _ := s.enter(ctx, "NoteFail", tok)
+	defer s.exit(ctx, r)
+	return errors.New(ErrText(tok))
+}
+
+// RevSub makes a reverse channel-returning call and reports how it ended.
+func (s *Svc) RevSub(ctx context.Context, tok string) (string, error) {
+	r, _ := s.enter(ctx, "RevSub", tok)
+	defer s.exit(ctx, r)
+	rc, ok := jsonrpc.ExtractReverseClient[RevAPI](ctx)
+	if !ok {
+		return "NOREV", nil
+	}
+	ch, err := rc.RSub(ctx, tok)
+	if err != nil {
+		return "", err
+	}
+	n := 0
+	for range ch {
+		n++
+	}
+	return fmt.Sprintf("got %d", n), nil
 }
 
 // RevN is a notification whose handler makes k reverse calls (outcome recorded in Note).
@@ -483,6 +521,7 @@ type RevAPI struct {
 	NoteBack func(ctx context.Context, tok string) error `notify:"true"`
 	// the same notification through a proxy field without a context parameter
 	NotePingNC func(tok string) error `notify:"true" rpc_method:"R.NotePing"`
+	RSub       func(ctx context.Context, tok string) (<-chan int, error)
 }
 
 // Rev calls back k times into the client that issued this call.
@@ -548,6 +587,9 @@ type Client struct {
 	RevN            func(ctx context.Context, tok string, k int) error `notify:"true"`
 	RevSpam         func(ctx context.Context, tok string, how int) (int, error)
 	RevNoteBack     func(ctx context.Context, tok string) (string, error)
+	RevSub          func(ctx context.Context, tok string) (string, error)
+	SubNE           func(ctx context.Context, tok string, n int, mode int) (<-chan Item, error)
+	NoteFail        func(ctx context.Context, tok string) error `notify:"true"`
 	React           func(ctx context.Context, tok string, delayMs int, size int) (string, error)
 	ReactN          func(ctx context.Context, tok string, delayMs int) error `notify:"true"`
 	SubInt          func(ctx context.Context, tok string, n int, mode int) (<-chan int, error)
@@ -561,6 +603,14 @@ type RevHandler struct {
 	Identity string
 	S        *Svc    // records entries by token
 	Fwd      *Client // the client's own forward proxy (for handlers that call forward again)
+}
+
+func (h *RevHandler) RSub(ctx context.Context, tok string) (<-chan int, error) {
+	ch := make(chan int, 3)
+	ch <- 1
+	ch <- 2
+	close(ch)
+	return ch, nil
 }
 
 func (h *RevHandler) NotePing(ctx context.Context, tok string) error {
